@@ -765,6 +765,7 @@ pub fn generate(seed: u64, base: &Cfg) -> Program
         }
         if let Some(Step::Batch(ops)) = steps.first_mut() { pre.append(ops); *ops = pre; }
     }
+    prog.bystander = g.r.chance(12);
     prog.insts = g.insts;
     prog.frame_systems = fs;
     prog.steps = steps;
